@@ -100,21 +100,17 @@ def check_matcher_metric(ctx: Ctx):
         ctx.undecided("METRIC", site, fi, "no cdist call")
         return
     mk = kwarg(cd[0], "metric")
-    if mk is None or not isinstance(mk, ast.Name):
+    if mk is None:
         ctx.violate("METRIC", site, (fi, cd[0]), "cdist is called without the grid-dependent metric: periodic boundaries are ignored")
         return
-    defs = [s for s in fv.statements() if isinstance(s, (ast.Assign, ast.AnnAssign)) and U(s.targets[0] if isinstance(s, ast.Assign) else s.target) == mk.id]
+    from ..astutil import value_cases, truth_of
+
     got = {}
-    for s in defs:
-        pol = None
-        for t, p in si.guards(s):
-            c2 = compare_parts(t)
-            if c2 and U(c2[0]) == "grid" and isinstance(c2[2], ast.Constant) and c2[2].value is None:
-                pol = p if isinstance(c2[1], ast.Is) else (not p if isinstance(c2[1], ast.IsNot) else None)
-        got[pol] = U(s.value)
-    ok = got.get(True) == "'euclidean'" and got.get(False) in ("functools.partial(grid.distance, coords='cartesian')", "partial(grid.distance, coords='cartesian')")
+    for dec, val in value_cases(fv, cd[0], mk):
+        got.setdefault(truth_of(dec, "grid is None"), set()).add(U(val))
+    ok = got.get(True) == {"'euclidean'"} and got.get(False) is not None and got[False] <= {"functools.partial(grid.distance, coords='cartesian')", "partial(grid.distance, coords='cartesian')"} and set(got) == {True, False}
     ctx.decide(ok, "METRIC", site, (fi, cd[0]), "cdist metric: 'euclidean' without a grid, grid.distance(coords='cartesian') with one",
-               f"cdist metric is selected as {got}; with a grid it must be functools.partial(grid.distance, coords='cartesian')")
+               f"cdist metric is selected as {got}; with a grid it must be functools.partial(grid.distance, coords='cartesian'), without one 'euclidean'")
 
 
 def check(ctx: Ctx):
